@@ -10,7 +10,8 @@ from . import hirq
 from .hirq import peel, callee
 
 RECV_ONLY_METHODS = {"ok_or", "ok_or_else", "expect", "unwrap", "ok", "try_into", "to_owned", "borrow", "as_ref", "cloned", "copied",
-                     "clone", "into", "iter", "iter_mut", "enumerate", "rev", "into_iter", "to_vec", "as_slice"}
+                     "clone", "into", "iter", "iter_mut", "enumerate", "rev", "into_iter", "to_vec", "as_slice",
+                     "flatten", "filter", "skip", "take", "peekable", "fuse", "by_ref", "skip_while", "take_while", "step_by", "copied", "as_mut", "as_deref"}
 PASS_THROUGH_METHODS = {"clone", "into", "min", "max", "unwrap_or", "unwrap_or_default", "to_owned", "borrow", "as_ref",
                         "saturating_sub", "saturating_add", "checked_sub", "checked_add", "wrapping_add", "wrapping_sub",
                         "try_into", "unwrap", "expect", "ok", "ok_or", "cloned", "copied", "iter", "iter_mut", "enumerate", "rev", "into_iter"}
